@@ -306,6 +306,10 @@ class MbfTranslator(Translator):
         if isinstance(node, ast.Attribute) and node.attr == '_buffer' and isinstance(node.value, ast.Name) \
                 and node.value.id != 'self' and node.value.id in env and env[node.value.id][1] == 'list Z':
             return env[node.value.id]
+        if isinstance(node, ast.Attribute) and isinstance(node.value, ast.Name) and node.value.id != 'self' \
+                and node.value.id in env and env[node.value.id][1] == 'list Z' and ('self.' + node.attr) in self.consts:
+            # class constant read through another object of the same class (right_in._bias)
+            return self.consts['self.' + node.attr]
         if isinstance(node, ast.BinOp) and isinstance(node.op, ast.Add):
             a = self.expr(node.left, env)
             if a[1] == 'list Z':
@@ -397,7 +401,7 @@ def emit_consts(t, m, cls, coqname):
 def generate(repo):
     path = os.path.join(repo, SOURCES[0])
     stateful = {'_check_limits', 'from_int', 'from_bytes', '_normalise', 'itrunc', '_bring_to_range',
-                'iadd', 'isub', 'imul'}
+                'iadd', 'isub', 'imul', 'idiv', '_div_den'}
     m = MbfModule(path, stateful)
     errors = read_errors(repo)
     t = MbfTranslator(m, errors=errors)
@@ -437,11 +441,13 @@ def generate(repo):
     t.method('Float', '_add_den', 'mbf_add_den', buffer=False, params={'lden': den, 'rden': den})
     t.method('Float', 'iadd', 'mbf_iadd', params={'right': 'list Z'})
     t.method('Float', 'isub', 'mbf_isub', params={'right': 'list Z'})
+    t.method('Float', '_div_den', 'mbf_div_den', buffer=False, params={'lden': den, 'rden': den})
+    t.method('Float', 'imul', 'mbf_imul', params={'right_in': 'list Z'})
+    t.method('Float', 'idiv', 'mbf_idiv', params={'right_in': 'list Z'})
     t.method('Float', 'ineg', 'mbf_ineg')
     t.method('Float', 'iabs', 'mbf_iabs')
     t.method('Float', '_apply_carry_den', 'mbf_apply_carry_den', buffer=False, params={'den': den})
     t.method('Float', '_mul10_den', 'mbf_mul10_den', buffer=False, params={'den': den})
-    t.method('Float', '_div_den', 'mbf_div_den', buffer=False, params={'lden': den, 'rden': den})
 
     # ---- Integer (2-byte buffers; no class record needed)
     ti = MbfTranslator(m, errors=errors)
